@@ -92,6 +92,15 @@ Inductive step :=
 | SExpose (c j : nat)                  (* caller obtains the array object in slot j of container c *)
 | SFail.                               (* a call that raised *)
 
+(* a pickle round trip of a container: slot j comes back re-frozen or not (flags from the generated table
+   Gen_c01: pickle_flags_index etc.); copy.deepcopy of a container whose slots all go through util.array_deepcopy *)
+Fixpoint pickle_dsrcs_from (j : nat) (flags : list bool) : list dsrc :=
+  match flags with
+  | [] => []
+  | f :: t => DPickle j f :: pickle_dsrcs_from (S j) t
+  end.
+Definition deep_dsrcs (n : nat) : list dsrc := map DDeep (seq 0 n).
+
 (* ---- M: the implementation ---- *)
 Definition m_src (bs : list (list Z)) (cs : list handle) (s : src)
   : res (list (list Z) * list handle * handle) :=
